@@ -475,3 +475,54 @@ func VerifC12Unrepresentable() {
 	_, err := c12Round(v)
 	vassert(err != nil, "a value of an unregistered type makes the serialiser fail instead of being written silently")
 }
+
+// thorough tier: recursively built values in interface-typed positions, depth <= 2: leaves {symbolic int, symbolic
+// string, named int, *int (nil / set), nil}; containers {[]any with 0-2 elements, map[string]any with one entry, a
+// registered struct holding the child in an any field and in a map[string]any, a pointer to such a struct}
+func c12Gen(d int) any {
+	nk := 5
+	if d > 0 {
+		nk = 9
+	}
+	switch vchoose("kind", nk) {
+	case 0:
+		return vsymInt("i")
+	case 1:
+		return vsymStr("s")
+	case 2:
+		return c12Named(vsymInt("n"))
+	case 3:
+		if vchoose("nilp", 2) == 0 {
+			return (*int)(nil)
+		}
+		x := vsymInt("p")
+		return &x
+	case 4:
+		return nil
+	case 5:
+		n := vchoose("len", 3)
+		l := make([]any, 0, n)
+		for i := 0; i < n; i++ {
+			l = append(l, c12Gen(d-1))
+		}
+		return l
+	case 6:
+		return map[string]any{"k": c12Gen(d - 1)}
+	case 7:
+		c := c12Gen(d - 1)
+		return c12Struct{A: vsymInt("a"), I: c, MA: map[string]any{"m": c}}
+	default:
+		return &c12Struct{B: vsymStr("b"), I: c12Gen(d - 1)}
+	}
+}
+
+func VerifC12Nested() {
+	c12Reg()
+	v := c12Gen(2)
+	r, err := c12Round(v)
+	if v == nil && err != nil {
+		return // a bare nil at the top has no type to record: refusing it loudly is allowed
+	}
+	vassert(err == nil, "a value built from registered types only is serialised and read back without an error")
+	vassert(c12Eq(v, r), "nested value in interface-typed positions: deserialised value is deeply equal to the serialised one, with the identical dynamic type")
+}
